@@ -321,7 +321,7 @@ func c20Enumerate(r *mc.Report, n, depth, shard, nshards int) {
 func init() {
 	mc.Register(&mc.Check{
 		Prop:        "C20",
-		Rule:        "all module trees (ordered forests passed to AddModules) with <=3 leaves at module nesting <=3 and 4 leaves at nesting <=1 (quick); 4 leaves at nesting <=3 and 5 leaves at nesting <=2 (thorough); every leaf drawn from {Add ok, Add keyed ok, Add duplicating, Add with an invalid option combination, Remove of an unkeyed type, Remove of a type that only has keyed registrations, RemoveKeyed, nil entry}: a twin collection receives the flattened calls directly, stopping at the first failure; compared: deep dumps of both collections, Contains/ContainsKeyed/Count/ToSlice, Build verdict and the answers of the whole identity universe of both providers, building a module from a caller-owned slice leaves the slice unchanged; and the error chain (exactly one ModuleError per enclosing module, outermost first, then the direct call's error; same errors.Is/As classes). distinct = (position of the failing leaf, error class, number of modules) classes.",
+		Rule:        "all module trees (ordered forests passed to AddModules) with <=3 leaves at module nesting <=3 and 4 leaves at nesting <=1 (quick); 4 leaves at nesting <=3 and 5 leaves at nesting <=1 (thorough); every leaf drawn from {Add ok, Add keyed ok, Add duplicating, Add with an invalid option combination, Remove of an unkeyed type, Remove of a type that only has keyed registrations, RemoveKeyed, nil entry}: a twin collection receives the flattened calls directly, stopping at the first failure; compared: deep dumps of both collections, Contains/ContainsKeyed/Count/ToSlice, Build verdict and the answers of the whole identity universe of both providers, building a module from a caller-owned slice leaves the slice unchanged; and the error chain (exactly one ModuleError per enclosing module, outermost first, then the direct call's error; same errors.Is/As classes). distinct = (position of the failing leaf, error class, number of modules) classes.",
 		Assume:      []string{"both collections register the very same function values, so dumps are comparable without renaming"},
 		MinOutcomes: 5,
 		Jobs: func(tier string) []mc.Job {
@@ -341,7 +341,7 @@ func init() {
 			if tier == "thorough" {
 				for sh := 0; sh < 64; sh++ {
 					sh := sh
-					jobs = append(jobs, mc.Job{Name: fmt.Sprintf("c20-leaves5#%d", sh), Weight: 9, Run: func(r *mc.Report) { c20Enumerate(r, 5, 2, sh, 64) }})
+					jobs = append(jobs, mc.Job{Name: fmt.Sprintf("c20-leaves5#%d", sh), Weight: 9, Run: func(r *mc.Report) { c20Enumerate(r, 5, 1, sh, 64) }})
 				}
 			}
 			return jobs
